@@ -20,6 +20,7 @@ def check(chk, thorough=False):
     chk.run('C08.g', 'R-NOPATH', 'a block that cannot be decoded fails the bundle instead of vanishing from it (list decoder does not skip; every block indexed) (= C12.j)', lambda ob: __import__('sa.props.c12', fromlist=['c12j']).c12j(tree, ob), floor=2)
     chk.run('C08.h', 'R-GUARD', 'the received block data is what the CRC check sees: parsed payloads are not written back over it (= C02.d)', lambda ob: __import__('sa.props.c02', fromlist=['c02d']).c02d(tree, ob), floor=3)
     chk.run('C08.i', 'sibling', 'the generic layer decodes what arrived: a field is stored when an item was consumed (null is a value), enumerations do not fall back, nothing undecodable is skipped (= C02.c)', lambda ob: __import__('sa.props.c02', fromlist=['c02c']).c02c(tree, ob), floor=10)
+    chk.run('C08.j', 'R-GUARD', 'every block is asked for its CRC: no filter on the CRC type in front of check_crc() (a type damaged into null must not mean "nothing to check")', lambda ob: c08j(tree, ob), floor=2)
     chk.run('C08.d', 'R-SCHEMA', 'CRC types 1/2 are CRC-16/X.25 big-endian 2 octets and CRC-32C big-endian 4 octets; the CRC field exists iff the type is non-zero', lambda ob: c08d(tree, ob), floor=6)
 
 
@@ -504,3 +505,28 @@ def eid_null_refused(tree, ob):
     else:
         ob.violate(frel, 'EidField.' + where.name, 'item None (CBOR null)', 'a null in the place of an endpoint ID decodes to None, which i2m() encodes as dtn:none ([1, 0]): the block re-encodes to '
                    'the octets the sender protected although other octets arrived, and passes the CRC check and the BPSec AAD', out.node or where, sure=True)
+
+
+def c08j(tree, ob):
+    ''' which blocks "have no CRC" is decided inside check_crc() (type 0: valid iff no value).  The loop over the blocks asks every
+    block; a filter in front of the question (`if blk.crc_type and ...`) answers "nothing to check" for a CRC type that a burst
+    turned into null or false -- the damaged block is accepted. '''
+    fb = FuncView(tree, BUNDLE, 'Bundle.check_all_crc')
+    calls = [c for c in calls_in(fb.func) if isinstance(c.func, ast.Attribute) and c.func.attr == 'check_crc']
+    ob.require(len(calls) >= 2, 'check_crc() calls in check_all_crc')
+    for c in calls:
+        base = src(c.func.value)
+        facts = [(t, p) for (t, p) in (fb.facts(c) or ()) if 'crc_type' in t or 'crc_value' in t]
+        # a test inside the same boolean expression (short circuit) is a guard as well
+        par = getattr(c, '_parent', None)
+        while par is not None and not isinstance(par, ast.stmt):
+            if isinstance(par, ast.BoolOp):
+                for v in par.values:
+                    if v is not c and not any(x is c for x in ast.walk(v)) and ('crc_type' in src(v) or 'crc_value' in src(v)):
+                        facts.append((src(v), True))
+            par = getattr(par, '_parent', None)
+        if facts:
+            ob.violate(BUNDLE, fb.qual, '{}.check_crc() only when {}'.format(base, facts[0][0])[:90], 'a block is asked for its CRC only when its CRC type looks set: a CRC type damaged into null / false '
+                       '(a short burst on the type octet) makes the block pass unchecked', c, sure=True)
+        else:
+            ob.site(BUNDLE, c, '{} is always asked'.format(base))
